@@ -1,6 +1,7 @@
 (* Model of the caching layers behind the request entry points of /repo/src/manager:
      data_structs.rs            Document / DocumentInfo (saved, opened, symbol_table)
      document_service.rs        get_parsed_document, get_parsed_document_without_caching, notify_document_closed
+                                (since /repo 9bf8fa8: reset_all_data, the table goes with the documents)
      mod.rs                     notify_document_{opened,changed,saved}, the 7 request entry points
      semantic_analysis_service  analyze_uri, get_symbol_table_for_uri_def_only
      analyzers_v2/ast_annotator annotate_doc (publish, then fill), handle_class (parent link, cycle refusal)
@@ -278,7 +279,7 @@ Inductive event :=
 | Open (p : nat)                  (* notify_document_opened: nothing *)
 | Change (p : nat) (v : version)  (* notify_document_changed: reset_transient_data, parse, set opened *)
 | Save (p : nat)                  (* the client has rewritten the file; notify_document_saved: reset_all_data + re-index *)
-| Close (p : nat)                 (* notify_document_closed: drops saved and opened, NOT symbol_table *)
+| Close (p : nat)                 (* notify_document_closed: reset_all_data (saved, opened, symbol_table) *)
 | Req (k : kind) (p : nat).
 
 Definition step (st : state) (e : event) : state * option answer :=
@@ -286,9 +287,13 @@ Definition step (st : state) (e : event) : state * option answer :=
   | Open _ => (st, None)
   | Change p v => (set_info st p (fun i => mkI (disk i) (saved i) (Some (new_doc v)) None), None)
   | Save p => (set_info st p (fun i => mkI (logical i) None None None), None)
-  | Close p => (set_info st p (fun i => mkI (disk i) None None (stab i)), None)
+  | Close p => (set_info st p (fun i => mkI (disk i) None None None), None)
   | Req k p => let '(st', a) := request st k p in (st', Some a)
   end.
+
+(* regression: notify_document_closed before /repo 9bf8fa8 dropped saved and opened but NOT symbol_table *)
+Definition old_close (st : state) (p : nat) : state :=
+  set_info st p (fun i => mkI (disk i) None None (stab i)).
 
 Fixpoint run (st : state) (h : list event) : state * list (option answer) :=
   match h with
@@ -400,17 +405,6 @@ Definition changes_logical (st : state) (e : event) : option nat :=
 Definition trigger_dep (st : state) (e : event) : bool :=
   match changes_logical st e with Some p => has_dependents st p | None => false end.
 
-(* R-close: didClose takes p back to the file while the DocumentInfo keeps the table of the closed text *)
-Definition trigger_close (st : state) (e : event) : bool :=
-  match e with
-  | Close p =>
-      match changes_logical st e, get st p with
-      | Some _, Some i => match stab i with Some _ => true | None => false end
-      | _, _ => false
-      end
-  | _ => false
-  end.
-
 (* R-tree: a hierarchy request when a header change has made the start-up class tree obsolete *)
 Definition trigger_tree (st : state) (e : event) : bool :=
   match e with
@@ -424,10 +418,10 @@ Fixpoint known_by (trig : state -> event -> bool) (st : state) (h : list event) 
   | e :: h' => trig st e || known_by trig (fst (step st e)) h'
   end.
 
-(* per event: which of the three situations it is in *)
-Fixpoint triggers (st : state) (h : list event) : list (bool * bool * bool) :=
+(* per event: which of the two situations it is in *)
+Fixpoint triggers (st : state) (h : list event) : list (bool * bool) :=
   match h with
   | [] => []
-  | e :: h' => (trigger_dep st e, trigger_close st e, trigger_tree st e) :: triggers (fst (step st e)) h'
+  | e :: h' => (trigger_dep st e, trigger_tree st e) :: triggers (fst (step st e)) h'
   end.
-Definition triggers_of (ws : list version) (h : list event) : list (bool * bool * bool) := triggers (init ws) h.
+Definition triggers_of (ws : list version) (h : list event) : list (bool * bool) := triggers (init ws) h.
